@@ -81,7 +81,11 @@ func c19ValsRead(cs []*Client) []c19ValSlot {
 // c19ValsLayout numbers the backing arrays: slices whose capacity extents overlap in memory are in
 // one array (adjacent extents that do not overlap cannot alias and count as different arrays).
 func c19ValsLayout(slots []c19ValSlot) (string, int) {
-	const esz = unsafe.Sizeof("")
+	return c19SliceLayout(slots, unsafe.Sizeof(""))
+}
+
+// c19SliceLayout: the same for slices with elements of esz bytes.
+func c19SliceLayout(slots []c19ValSlot, esz uintptr) (string, int) {
 	idx := make([]int, 0, len(slots))
 	for i := range slots {
 		if slots[i].cap > 0 {
